@@ -109,6 +109,14 @@ def monStep (ms : MonSt) (l : Line) : MonSt × Option String × Option String :=
       let (_, a1, b1) := FlowObs.observe (int l "now1") ms e
       let v04 := if a0.isSome && a1.isSome then a0 else none
       let v07 := if b0.isSome && b1.isSome then b0 else none
+      -- deep4-C04: an answer with tokens for a SPENT code (already a violation: "once") is also judged as if the code were unspent,
+      -- so that the verdict names the binding clause it breaks as well (a request that had to be refused on its own account)
+      let v04 := match v04, e with
+        | some "code-replayed", .exchange p obs _ =>
+          match C04.judgeBinding ms.m04 (int l "now0") p obs, C04.judgeBinding ms.m04 (int l "now1") p obs with
+          | some c0, some _ => some ("code-replayed+" ++ c0)
+          | _, _ => v04
+        | x, _ => x
       -- id_token must agree with the access token about the subject and name the client
       let v04 := match v04, e with
         | none, .exchange _ (some tk) _ =>
